@@ -71,8 +71,13 @@ def rule_r1(facts, col):
         else:
             col.ok("C14.R1", key, fns["parse"].where(), "parse/serialize both %s, size() = %d" % (sorted(set(enc)), size))
     # AU pair
-    encb = [b for b in facts.bodies if (b.self_adt == "au::AuEncode" or (b.parent or {}).get("self_adt") == "au::AuEncode")]
-    decb = [b for b in facts.bodies if (b.self_adt == "au::AuDecode" or (b.parent or {}).get("self_adt") == "au::AuDecode")]
+    cg = CallGraph(facts)
+    def side(adt):
+        roots = [b.q for b in facts.bodies if (b.self_adt == adt or (b.parent or {}).get("self_adt") == adt)]
+        reach = cg.reachable_bodies(roots)
+        return [b for b in facts.bodies if b.q in reach and b.file == "src/au.rs"]
+    encb = side("au::AuEncode")
+    decb = side("au::AuDecode")
     e = {(p, en) for p, d, en, b, bb in codec_calls(facts, encb) if d == "to"}
     d_ = {(p, en) for p, d, en, b, bb in codec_calls(facts, decb) if d == "from"}
     if e or d_:
